@@ -39,10 +39,7 @@ func (fr *Frame) loopModSet(li *loopInfo) map[string]bool {
 	for b := range li.blocks {
 		vc.modSetBlock(fr.fn, b, set, map[*ssa.Function]bool{})
 	}
-	// ghost variables may be assigned by site clauses inside the loop
-	// (the top function's ghost variables can be assigned inside this loop only by site clauses
-	// that apply here: this is the top function, a closure nested in it, or the loop makes calls
-	// the generator cannot resolve, through which such a closure might run)
+	// ghost state assigned by site clauses that can fire inside the loop
 	reachesTop := fr == fr.top || set["*"]
 	for p := fr.fn.Parent(); p != nil; p = p.Parent() {
 		if p == fr.top.fn {
@@ -51,19 +48,108 @@ func (fr *Frame) loopModSet(li *loopInfo) map[string]bool {
 	}
 	for _, own := range []*Frame{fr, fr.top} {
 		if own == fr.top && own != fr && !reachesTop {
+			// (the top function's site clauses apply here only if this is a closure nested in it,
+			// or the loop makes calls the generator cannot resolve, through which such a closure might run)
 			continue
 		}
 		oc := own.contract
 		if oc == nil {
 			oc = own.ownContract()
 		}
-		if oc != nil {
+		if oc == nil {
+			continue
+		}
+		var clauses []*SiteClause
+		precise := false
+		if own == fr {
+			clauses, precise = fr.ghostClausesIn(li, oc)
+		}
+		if !precise {
+			clauses = nil
+			for i := range oc.Sites {
+				if oc.Sites[i].What == "ghost" {
+					clauses = append(clauses, &oc.Sites[i])
+				}
+			}
+		}
+		for _, sc := range clauses {
+			src := ""
+			if sc.GhostLHS != nil {
+				src = strings.TrimSpace(sc.GhostLHS.Src)
+			}
+			if i := strings.LastIndex(src, "."); i >= 0 {
+				// obj.ghostField: every declared ghost field of that name
+				for k := range vc.S.Ghosts {
+					if strings.HasSuffix(k, "."+src[i+1:]) {
+						set["H_"+k] = true
+					}
+				}
+				continue
+			}
 			for _, gv := range oc.GhostVars {
-				set["GV_"+funcKey(own.fn)+"."+gv.Name] = true
+				if gv.Name == src {
+					set["GV_"+funcKey(own.fn)+"."+gv.Name] = true
+				}
 			}
 		}
 	}
 	return set
+}
+
+// ghostClausesIn: the ghost site clauses of ct that match a site inside loop li of this frame's
+// function. precise=false if the loop may run code of a nested closure (whose sites also fire
+// clauses of this contract): a closure is created or called, or a function value is passed on.
+func (fr *Frame) ghostClausesIn(li *loopInfo, ct *Contract) ([]*SiteClause, bool) {
+	ords := fr.siteOrdinals()
+	pords := fr.pseudoOrdinals()
+	var out []*SiteClause
+	seen := map[*SiteClause]bool{}
+	match := func(kind, name string, ord int) {
+		for i := range ct.Sites {
+			sc := &ct.Sites[i]
+			if sc.What != "ghost" || sc.Kind != kind || sc.Target != name || (sc.Ord != 0 && sc.Ord != ord) {
+				continue
+			}
+			if !seen[sc] {
+				seen[sc] = true
+				out = append(out, sc)
+			}
+		}
+	}
+	for b := range li.blocks {
+		for _, in := range b.Instrs {
+			switch x := in.(type) {
+			case *ssa.MakeClosure:
+				return nil, false
+			case ssa.CallInstruction:
+				c := x.Common()
+				if !c.IsInvoke() {
+					if _, isB := c.Value.(*ssa.Builtin); !isB {
+						if sf := c.StaticCallee(); sf == nil || sf.Parent() != nil {
+							return nil, false
+						}
+					}
+				}
+				for _, a := range c.Args {
+					if _, isF := a.Type().Underlying().(*types.Signature); isF {
+						return nil, false
+					}
+				}
+				match("call", calleeName(c), ords[c])
+			case *ssa.Store:
+				if fa, ok := x.Addr.(*ssa.FieldAddr); ok {
+					match("store", fieldName(fa.X.Type().Underlying().(*types.Pointer).Elem(), fa.Field), ords[x])
+				}
+			case *ssa.Select:
+				match("call", "select", pords[x])
+			case *ssa.UnOp:
+				if x.Op == token.ARROW {
+					match("call", "recv", pords[x])
+				}
+			}
+		}
+	}
+	return out, true
 }
 
 // ownContract: the contract of an inlined closure (nil for ordinary inlined functions,
